@@ -53,6 +53,10 @@ class C19(Prop):
             text = gen.program_text(clauses, src)
             if src.n(2):
                 text += "odd(%s, %s).\n" % (gen.atom_tokens(src.pick(ODD), None)[0] if False else "'" + src.pick(ODD).replace("'", "\\'") + "'", src.pick(['a', 'X', "'é'"]))
+            if src.n(4) == 3:
+                # predicates that can never succeed (their generated function has no statement of its own)
+                from .c11 import NEVER
+                text += ''.join('%s :- %s.\n' % (src.pick(['nv', 'nv2(_)', 'nv3(X, X)']), src.pick(NEVER)) for _ in range(1 + src.n(2)))
             mode = 'ok'
             k = src.n(8)
             errline = None
